@@ -128,6 +128,7 @@ func cmdStoreRace(args []string) int {
 		for _, en := range names {
 			kvs := engs[en].KV
 			seen := map[string]int{}
+			badReads := map[string]int{}
 			for r := 0; r < *reps; r++ {
 				prefix := fmt.Sprintf("/r%d/", atomic.AddInt64(&raceSeq, 1))
 				keys := []int{}
@@ -165,10 +166,48 @@ func cmdStoreRace(args []string) int {
 					}
 					res[i] = classify(b.Commit(ctx))
 				}
+				// two readers look the keys up while the batches commit: a lookup never panics and returns a value the key
+				// has in this round (its initial value, the value either batch writes) or "not found"
+				var stopReaders int32
+				var rwg sync.WaitGroup
+				badRead := ""
+				var brMu sync.Mutex
+				for rd := 0; rd < 2; rd++ {
+					rwg.Add(1)
+					go func() {
+						defer rwg.Done()
+						defer func() {
+							if x := recover(); x != nil {
+								brMu.Lock()
+								badRead = "panic: " + fmt.Sprint(x)
+								brMu.Unlock()
+							}
+						}()
+						for atomic.LoadInt32(&stopReaders) == 0 {
+							for _, k := range keys {
+								v, err := kvs.Get(ctx, posKey(prefix, k))
+								if err != nil {
+									continue
+								}
+								sv := string(v)
+								if sv != initv[k] && !(c.A.K == k && sv == c.A.V) && !(c.B.K == k && sv == c.B.V) {
+									brMu.Lock()
+									badRead = fmt.Sprintf("key %d read as %q", k, sv)
+									brMu.Unlock()
+								}
+							}
+						}
+					}()
+				}
 				wg.Add(2)
 				go run(0, c.A)
 				go run(1, c.B)
 				wg.Wait()
+				atomic.StoreInt32(&stopReaders, 1)
+				rwg.Wait()
+				if badRead != "" {
+					badReads[badRead]++
+				}
 				rounds++
 				if atomic.LoadInt32(&ready) == 2 {
 					overlapped++
@@ -184,6 +223,9 @@ func cmdStoreRace(args []string) int {
 				}
 				fb, _ := json.Marshal(final)
 				seen[res[0]+"|"+res[1]+"|"+string(fb)]++
+			}
+			for what, cnt := range badReads {
+				emit(gate.Event{"e": "SRaceRead", "engine": en, "a": c.A, "b": c.B, "what": what, "count": cnt})
 			}
 			for o, cnt := range seen {
 				p := strings.SplitN(o, "|", 3)
